@@ -808,9 +808,13 @@ func floorScan(v ssa.Value, fl *floorFlags, depth int, seen map[*ssa.Function]bo
 }
 
 func checkFloor(r *Run, vs map[*ssa.Function][]int) {
+	checkFloorIn(r, vs, "C02.floor", []string{"app.handleBlockRewards", "app.handleDelegationRewards", "action/governance.distributeFunds", "(*identity.ValidatorStore).GetEndBlockUpdate"}, 7)
+}
+
+func checkFloorIn(r *Run, vs map[*ssa.Function][]int, rule string, roots []string, min int) {
 	p := r.P
 	n := 0
-	for _, name := range []string{"app.handleBlockRewards", "app.handleDelegationRewards", "action/governance.distributeFunds", "(*identity.ValidatorStore).GetEndBlockUpdate"} {
+	for _, name := range roots {
 		root := p.MustFn(name)
 		for _, fn := range append([]*ssa.Function{root}, root.AnonFuncs...) {
 			allInstrs(fn, func(ins ssa.Instruction) {
@@ -829,18 +833,18 @@ func checkFloor(r *Run, vs map[*ssa.Function][]int) {
 					floorScan(c.Args[i], &fl, 0, map[*ssa.Function]bool{})
 					if !fl.div {
 						// not a share (a matured record, the remainder of the distribution): not this rule's subject
-						r.Info("C02.floor", fname(fn), "credit by "+fname(sc), "amount is not a quotient (whole record / remainder)")
+						r.Info(rule, fname(fn), "credit by "+fname(sc), "amount is not a quotient (whole record / remainder)")
 						continue
 					}
 					n++
-					r.Check(fl.up == "", "C02.floor", fname(fn), "share credited by "+fname(sc)+" is rounded down", "quotient of an integer division, nothing added afterwards",
+					r.Check(fl.up == "", rule, fname(fn), "share credited by "+fname(sc)+" is rounded down", "quotient of an integer division, nothing added afterwards",
 						"the credited share passes through "+fl.up+": the shares can add up to more than the amount being split", p.ipos(ins))
 				}
 			})
 		}
 	}
-	if n < 7 {
-		fail("C02.floor: only %d credited shares found (expected 8)", n)
+	if n < min {
+		fail("%s: only %d credited shares found (expected >= %d)", rule, n, min)
 	}
 }
 
